@@ -368,6 +368,7 @@ type c48Verdict struct {
 	nontriv   bool
 	desc      string
 	truncated bool
+	diffed    int // trie node lookups compared with their one-by-one replies
 }
 
 // c48Judge decodes the request (if it decodes the handler must have answered) and
@@ -862,9 +863,51 @@ type c48Lookup struct {
 	want []byte // expected blob, nil = nothing stored at that path
 	wild bool   // malformed path: anything that is a node of the trie, or nothing
 	tr   *reftrie.Result
+	// the raw request items of this lookup, for asking it again on its own
+	storage bool
+	acct    []byte
+	path    []byte
+}
+
+// c48MaxSingles bounds the number of one-path requests issued per judged batch.
+const c48MaxSingles = 96
+
+// c48AskSingle sends the one lookup as a request of its own (same root, full byte
+// budget), judges that reply against the model and returns its items: no item (the
+// server skipped the path), or exactly one blob (possibly empty).
+func c48AskSingle(t c48T, env *c48Env, root common.Hash, l c48Lookup) [][]byte {
+	set := refrlp.L(refrlp.S(l.path))
+	if l.storage {
+		set = refrlp.L(refrlp.S(l.acct), refrlp.S(l.path))
+	}
+	payload := refrlp.Encode(refrlp.L(refrlp.Uint(1), refrlp.S(root[:]), refrlp.L(set), refrlp.Uint(softResponseLimit)))
+	out := c48Send(t, env, SNAP1, GetTrieNodesMsg, payload)
+	var req GetTrieNodesPacket
+	if err := c48WireDecode(payload, &req); err != nil {
+		t.Fatalf("VERIF-HARNESS-BUG: single-path GetTrieNodes does not decode: %v (%x)", err, payload)
+	}
+	if out.err != nil {
+		t.Fatalf("well-formed single-path GetTrieNodes not answered: %v (payload %x)", out.err, payload)
+	}
+	var res TrieNodesPacket
+	if out.code != TrieNodesMsg || rlp.DecodeBytes(out.reply, &res) != nil {
+		t.Fatalf("single-path GetTrieNodes answered with code %#x / undecodable reply %x", out.code, out.reply)
+	}
+	if len(res.Nodes) > 1 {
+		t.Fatalf("GetTrieNodes with one path returned %d items (payload %x)", len(res.Nodes), payload)
+	}
+	c48JudgeNodesOpt(t, env, &req, &res, out.elapsed, false)
+	return res.Nodes
 }
 
 func c48JudgeNodes(t c48T, env *c48Env, req *GetTrieNodesPacket, res *TrieNodesPacket, elapsed time.Duration) c48Verdict {
+	return c48JudgeNodesOpt(t, env, req, res, elapsed, true)
+}
+
+// c48JudgeNodesOpt judges a TrieNodes reply against the model; with differential set
+// it additionally requires the reply to be what the same paths yield when each is
+// requested on its own (a prefix of it when a limit may have cut the batch).
+func c48JudgeNodesOpt(t c48T, env *c48Env, req *GetTrieNodesPacket, res *TrieNodesPacket, elapsed time.Duration, differential bool) c48Verdict {
 	v := c48Verdict{kind: "node"}
 	if res.ID != req.ID {
 		t.Fatalf("TrieNodes reply id %d != request id %d", res.ID, req.ID)
@@ -910,7 +953,7 @@ outer:
 				break outer
 			}
 			hex, wild := c48CompactToHex(items[0].b)
-			lookups = append(lookups, c48Lookup{want: model.Trie.Nodes[string(hex)], wild: wild, tr: model.Trie})
+			lookups = append(lookups, c48Lookup{want: model.Trie.Nodes[string(hex)], wild: wild, tr: model.Trie, path: items[0].b})
 		default:
 			if items[0].list {
 				break outer
@@ -924,7 +967,7 @@ outer:
 					break outer
 				}
 				hex, wild := c48CompactToHex(p.b)
-				lookups = append(lookups, c48Lookup{want: acct.St.Nodes[string(hex)], wild: wild, tr: acct.St})
+				lookups = append(lookups, c48Lookup{want: acct.St.Nodes[string(hex)], wild: wild, tr: acct.St, storage: true, acct: items[0].b, path: p.b})
 			}
 		}
 	}
@@ -984,6 +1027,39 @@ outer:
 	// short, every stored node that was asked for is delivered
 	if !malformed && !anyWild && avail == c48Must && all <= budget && len(lookups) <= 64 && elapsed < 2*time.Second && filled != expect {
 		t.Fatalf("TrieNodes returned %d nodes, %d of the requested paths hold a stored node (root %x, bytes %d, paths %x)", filled, expect, req.Root, req.Bytes, req.Paths.Content())
+	}
+	mayBeCut := all > budget || len(lookups) > 64 || elapsed >= 2*time.Second
+	// differential oracle: the batch is served from one cached in-memory trie per
+	// request; that must not change any answer: reply == concatenation of the replies
+	// to the same paths requested one by one (a prefix of it where a limit cut it)
+	if differential && len(lookups) > 1 && len(lookups) <= c48MaxSingles {
+		var single [][]byte
+		var from []int
+		for li, l := range lookups {
+			for _, b := range c48AskSingle(t, env, req.Root, l) {
+				single = append(single, b)
+				from = append(from, li)
+			}
+		}
+		for i, blob := range res.Nodes {
+			if i >= len(single) {
+				if uncertain {
+					break
+				}
+				t.Fatalf("TrieNodes batch returned %d items, the same %d paths requested one by one yield %d (root %x, paths %x)",
+					len(res.Nodes), len(lookups), len(single), req.Root, req.Paths.Content())
+			}
+			if !bytes.Equal(blob, single[i]) {
+				l := lookups[from[i]]
+				t.Fatalf("TrieNodes batch item %d (%x) differs from the reply to the same path requested alone (%x): lookup %d, storage=%v account %x path %x (root %x, paths %x)",
+					i, blob, single[i], from[i], l.storage, l.acct, l.path, req.Root, req.Paths.Content())
+			}
+		}
+		if !malformed && !uncertain && !mayBeCut && len(res.Nodes) != len(single) {
+			t.Fatalf("TrieNodes batch returned %d items although no limit was hit, the same %d paths requested one by one yield %d (root %x, bytes %d, paths %x)",
+				len(res.Nodes), len(lookups), len(single), req.Root, req.Bytes, req.Paths.Content())
+		}
+		v.diffed = len(single)
 	}
 	v.truncated = filled < expect
 	v.nontriv = filled > 0 && (v.truncated || len(lookups) > filled)
